@@ -1,3 +1,168 @@
 package main
 
-func registerHashmap(reg func(f intrinsicFn, names ...string)) {}
+// Ideal-map model of github.com/cornelk/hashmap.HashMap (a lock-free map built on unsafe pointers),
+// a canonical-YAML reader for gopkg.in/yaml.v3.Unmarshal, an in-memory file table, and
+// RunUntilBlocked for goroutine bodies.
+
+import (
+	"go/types"
+	"strings"
+
+	"golang.org/x/tools/go/ssa"
+)
+
+func (e *Exec) hmap(recv Value) *MapV {
+	p := recv.(*PtrV)
+	m := e.env.hmaps[p.C]
+	if m == nil {
+		m = &MapV{index: map[string]*MapEntry{}}
+		e.env.hmaps[p.C] = m
+	}
+	return m
+}
+
+func registerHashmap(reg func(f intrinsicFn, names ...string)) {
+	const H = "(*github.com/cornelk/hashmap.HashMap)."
+	reg(func(e *Exec, fn *ssa.Function, args []Value) Value {
+		m := e.hmap(args[0])
+		if ent := e.mapFind(m, args[1]); ent != nil {
+			return TupleV{ent.V, e.tf.tt}
+		}
+		return TupleV{&IfaceV{}, e.tf.ff}
+	}, H+"Get")
+	reg(func(e *Exec, fn *ssa.Function, args []Value) Value {
+		m := e.hmap(args[0])
+		if ent := e.mapFind(m, args[1]); ent != nil {
+			return TupleV{ent.V, e.tf.tt}
+		}
+		e.mapUpdate(m, args[1], args[2])
+		return TupleV{args[2], e.tf.ff}
+	}, H+"GetOrInsert")
+	reg(func(e *Exec, fn *ssa.Function, args []Value) Value {
+		m := e.hmap(args[0])
+		if ent := e.mapFind(m, args[1]); ent != nil {
+			return e.tf.ff
+		}
+		e.mapUpdate(m, args[1], args[2])
+		return e.tf.tt
+	}, H+"Insert")
+	reg(func(e *Exec, fn *ssa.Function, args []Value) Value {
+		e.mapUpdate(e.hmap(args[0]), args[1], args[2])
+		return nil
+	}, H+"Set")
+	reg(func(e *Exec, fn *ssa.Function, args []Value) Value {
+		e.mapDelete(e.hmap(args[0]), args[1])
+		return nil
+	}, H+"Del")
+	reg(func(e *Exec, fn *ssa.Function, args []Value) Value {
+		return e.tf.Const(64, uint64(e.hmap(args[0]).live))
+	}, H+"Len")
+	reg(func(e *Exec, fn *ssa.Function, args []Value) Value {
+		m := e.hmap(args[0])
+		ch := &ChanV{Closed: true}
+		for _, ent := range m.Entries {
+			if ent.deleted {
+				continue
+			}
+			ch.Buf = append(ch.Buf, &StructV{F: []*Cell{{V: ent.K}, {V: ent.V}}})
+		}
+		ch.Cap = len(ch.Buf)
+		return ch
+	}, H+"Iter")
+
+	// ----- files + canonical YAML -----
+	reg(func(e *Exec, fn *ssa.Function, args []Value) Value {
+		name := e.strArg(args[0])
+		e.env.files[name] = e.sliceBytesOrNil(args[1])
+		return nil
+	}, "rcproxy/verifrt.PutFile")
+	readFile := func(e *Exec, fn *ssa.Function, args []Value) Value {
+		name := e.strArg(args[0])
+		b, ok := e.env.files[name]
+		if !ok {
+			err := e.call(e.prog.ImportedPackage("errors").Func("New"), []Value{e.strLit("open " + name + ": no such file or directory")})
+			return TupleV{&SliceV{}, err}
+		}
+		return TupleV{e.newByteSlice(b, len(b)), &IfaceV{}}
+	}
+	reg(readFile, "io/ioutil.ReadFile", "os.ReadFile")
+	reg(func(e *Exec, fn *ssa.Function, args []Value) Value {
+		// canonical documents only:  "<key>: <scalar>\n"  and  "<key>:\n  - <item>\n ..." ; concrete bytes
+		s, ok := strConc(&StrV{e.sliceBytesOrNil(args[0])})
+		if !ok {
+			e.unsupported("yaml.Unmarshal of symbolic text")
+		}
+		iv := args[1].(*IfaceV)
+		ptr := iv.V.(*PtrV)
+		sv := e.loadCell(ptr.C).(*StructV)
+		st := iv.T.(*types.Pointer).Elem().Underlying().(*types.Struct)
+		field := func(key string) int {
+			for i := 0; i < st.NumFields(); i++ {
+				tag := st.Tag(i)
+				if strings.Contains(tag, `yaml:"`+key+`"`) || strings.EqualFold(st.Field(i).Name(), key) {
+					return i
+				}
+			}
+			return -1
+		}
+		lines := strings.Split(s, "\n")
+		for i := 0; i < len(lines); i++ {
+			ln := lines[i]
+			if strings.TrimSpace(ln) == "" {
+				continue
+			}
+			k, v, found := strings.Cut(ln, ":")
+			if !found {
+				e.unsupported("yaml line %q", ln)
+			}
+			fi := field(strings.TrimSpace(k))
+			v = strings.TrimSpace(v)
+			if v == "" {
+				var items []Value
+				for i+1 < len(lines) && strings.HasPrefix(strings.TrimSpace(lines[i+1]), "- ") {
+					i++
+					items = append(items, e.strLit(strings.TrimSpace(strings.TrimPrefix(strings.TrimSpace(lines[i]), "- "))))
+				}
+				if fi >= 0 {
+					arr := &ArrV{}
+					for _, it := range items {
+						arr.Cells = append(arr.Cells, &Cell{V: it})
+					}
+					e.storeCell(sv.F[fi], &SliceV{Arr: arr, Len: len(items), Cap: len(items)})
+				}
+				continue
+			}
+			if fi < 0 {
+				continue
+			}
+			switch st.Field(fi).Type().Underlying().(type) {
+			case *types.Basic:
+				if isString(st.Field(fi).Type()) {
+					e.storeCell(sv.F[fi], e.strLit(v))
+				} else {
+					e.storeCell(sv.F[fi], e.tf.Bool(v == "true"))
+				}
+			}
+		}
+		return &IfaceV{}
+	}, "gopkg.in/yaml.v3.Unmarshal")
+
+	// ----- goroutine bodies -----
+	reg(func(e *Exec, fn *ssa.Function, args []Value) (ret Value) {
+		fv := args[0].(*FuncV)
+		depth, stackLen := e.depth, len(e.stack)
+		defer func() {
+			if r := recover(); r != nil {
+				if pe, ok := r.(pathEnd); ok && pe.status == "blocked" {
+					e.depth = depth
+					e.stack = e.stack[:stackLen]
+					ret = e.tf.tt
+					return
+				}
+				panic(r)
+			}
+		}()
+		e.callClosure(fv, nil)
+		return e.tf.ff
+	}, "rcproxy/verifrt.RunUntilBlocked")
+}
